@@ -296,6 +296,12 @@ PROPS["C11"] = {
     "outside": "time, sweeper interleavings, recovery, insert_with_ttl's non-Bytes twin (same expression, not separately encoded)",
 }
 
+PROPS["C17"]["smt"] = "c17"
+PROPS["C17"]["engine_name"] = "E1-kani + E2-mir-smt"
+PROPS["C17"]["technique"] += "; SMT (z3) over the MIR of allocation_journal::decode_slot: every explicit panic site unreachable for arbitrary slot contents"
+PROPS["C17"]["level_text"] += " z3-decided over MIR: in allocation_journal::decode_slot, for ANY slot contents (all parsed values havocked), no overflow assert, no out-of-range slice of the 3-block slot (including the checksum image data[..checksum_len] whose length depends on the forged entry count), no failing fixed-size conversion and no out-of-bounds pair access is reachable (one arbitrary iteration per loop)."
+PROPS["C17"]["level_note"] = PROPS["C17"]["level_note"].replace(" and the allocation-journal slot decoder (12 KiB arrays: CBMC array post-processing does not finish) are outside the claim.", " are outside the claim; the journal slot decoder is covered by the MIR/SMT engine for its explicit panic sites only (callee-internal panics of std are not modelled).")
+PROPS["C17"]["functions"] += [JRN + "::decode_slot", JRN + "::journal_image_size"]
 PROPS["C08"]["smt"] = "c08"
 PROPS["C08"]["engine_name"] = "E1-kani + E2-mir-smt"
 PROPS["C08"]["technique"] = "bounded model checking (Kani/CBMC) of the post-read identity check and the extent word; SMT (z3) over MIR for acquire_extent under interference and for pinned-record == read-record identity in the two disk-read paths"
